@@ -77,12 +77,13 @@ def expected_for(o, prefix, prog):
                 opt |= {n for n, e in list(s_.declared.items()) + list(s_.use_visible().items())
                         if n.startswith(p) and e.kind in VAR_KINDS and isinstance(e.typ, tuple)}
                 s_ = s_.parent
+            opt |= {n for n, e in acc.items() if n.startswith(p) and e.kind == "proto"}
             return "call", req, opt
         if st_.kind == "open-construct" and o.tok_i <= 2 and o.role == "use" and isinstance(toks[0], str) and toks[0].startswith("do "):
             return None  # DO variable position
         # operands: variables and functions are required; subroutines / generic names / types are tolerated
         req = {n for n, e in acc.items() if n.startswith(p) and e.kind in VAR_KINDS + ("function",)}
-        opt = {n for n, e in acc.items() if n.startswith(p) and e.kind in ("type", "subroutine", "interface")}
+        opt = {n for n, e in acc.items() if n.startswith(p) and e.kind in ("type", "subroutine", "interface", "proto")}
         # the associate names introduced by this very statement are not accessible in its selectors
         opt |= {t.ent.name.lower() for t in toks if isinstance(t, fmodel.Ref) and t.role == "decl" and t.ent.kind == "assoc"}
         return "body", req, opt
@@ -97,7 +98,9 @@ def expected_for(o, prefix, prog):
         if not mod:
             return None
         exp = mod[0].ent.inner.exported()
-        return "use-only", {n for n in exp if n.startswith(p)}, set()
+        # prototypes of an abstract interface are offered by fortls only after 'procedure(': tolerated either way here
+        return ("use-only", {n for n, e in exp.items() if n.startswith(p) and e.kind != "proto"},
+                {n for n, e in exp.items() if n.startswith(p) and e.kind == "proto"})
     return None
 
 
@@ -120,6 +123,8 @@ def collect_aliased(prog):
             for loc, rem in (u.only or []):
                 if loc.lower() != rem.name.lower():
                     out.add(id(rem))
+            for loc, _, rem in (u.renames or []):
+                out.add(id(rem))
         for ch in sc.children:
             walk(ch)
 
